@@ -1330,6 +1330,16 @@ ABTD_atomic_bool_cas_weak_tagged_ptr(ABTD_atomic_tagged_ptr *tagged_ptr,
         ABTD_ATOMIC_TAGGED_PTR_STATIC_INITIALIZER(new_ptr, new_tag)
     };
 
+#if defined(PMODELS_ARGOBOTS_VERIF) && defined(__SANITIZE_THREAD__)
+    /* ThreadSanitizer cannot see the inline-assembly CAS. */
+    extern void __tsan_acquire(void *addr);
+    extern void __tsan_release(void *addr);
+    __tsan_release((void *)p_val);
+    int verif_cas_ret =
+        ABTD_asm_bool_cas_weak_int128(p_val, oldv.val, newv.val);
+    __tsan_acquire((void *)p_val);
+    return verif_cas_ret;
+#endif
     return ABTD_asm_bool_cas_weak_int128(p_val, oldv.val, newv.val);
 
 #else /* SIZEOF_VOID_P */
